@@ -97,6 +97,57 @@ func (s *faultSink) Close() error {
 	return nil
 }
 
+
+// endFlushSink records which sink Write (1-based) was issued from Writer.writeEndMarker.
+type endFlushSink struct {
+	calls, endCall int
+}
+
+func (s *endFlushSink) Write(p []byte) (int, error) {
+	s.calls++
+	pcs := make([]uintptr, 40)
+	n := runtime.Callers(2, pcs)
+	fr := runtime.CallersFrames(pcs[:n])
+	for {
+		f, more := fr.Next()
+		if strings.Contains(f.Function, "writeEndMarker") {
+			s.endCall = s.calls
+		}
+		if !more {
+			break
+		}
+	}
+	return len(p), nil
+}
+
+func (s *endFlushSink) Close() error { return nil }
+
+// swFindEndFlush searches, on the real Writer with a healthy sink, an input length near
+// m*256KiB for which the 8-bit end marker written by Close is what fills the bitstream buffer
+// (so that the marker itself triggers a sink Write).  Returns the length and the 1-based index
+// of that sink Write.  The layout depends on header/frame overheads and on the flush rules of
+// the bitstream, so it is probed rather than computed; the emitted scenario is plain text and
+// stays valid (it just stops hitting the marker flush) if the layout ever changes.
+func swFindEndFlush(bs, j, ck, hl, m int) (int, int, bool) {
+	for n := m*262144 - 8; n > m*262144-400; n-- {
+		sink := &endFlushSink{}
+		w, err := kio.NewWriter(sink, "NONE", "NONE", uint(bs), uint(j), uint(ck), 0, hl == 1)
+		if err != nil {
+			return 0, 0, false
+		}
+		if _, err := w.Write(patRange(0, n)); err != nil {
+			return 0, 0, false
+		}
+		if err := w.Close(); err != nil {
+			return 0, 0, false
+		}
+		if sink.endCall != 0 {
+			return n, sink.endCall, true
+		}
+	}
+	return 0, 0, false
+}
+
 func classifyWErr(err error) string {
 	if err == nil {
 		return "ok"
@@ -393,6 +444,26 @@ func swGen(r *rand.Rand, tier string, n int, emit func(op string, tags ...string
 			return r.Intn(3 * bs)
 		}
 	}
+	nEnd := 8
+	if tier == "thorough" {
+		nEnd = 60
+	}
+	for i := 0; i < nEnd && i < n; i++ {
+		bs := []int{262144, 65536, 131072, 524288}[r.Intn(4)]
+		j := 1 + r.Intn(4)
+		ck := []int{0, 32, 64}[r.Intn(3)]
+		hl := r.Intn(5) / 4
+		m := 1 + r.Intn(2)
+		ln, k, ok := swFindEndFlush(bs, j, ck, hl, m)
+		if !ok {
+			continue
+		}
+		fail, sticky := k, r.Intn(3)/2
+		if r.Intn(5) == 0 {
+			fail = k + 1 // the final flush instead
+		}
+		emit(fmt.Sprintf("sw bs=%d j=%d hint=0 hl=%d ck=%d fail=%d sticky=%d cfail=0 ; w %d ; c ; g ; c ; w 1 ; c", bs, j, hl, ck, fail, sticky, ln), "family:endflush")
+	}
 	for i := 0; i < n; i++ {
 		bs := []int{1024, 1024, 1040, 2048, 4096, 65536}[r.Intn(6)]
 		j := []int{1, 1, 2, 3, 4, 7, 8, 16, 63, 64}[r.Intn(10)]
@@ -466,7 +537,7 @@ func init() {
 		Name:     "sw",
 		Watchdog: 120 * time.Second,
 		Serial:   true,
-		Rule:     "random call programs (Write incl. 0-length, Close repeated, GetWritten, calls after Close) on the real Writer with NONE/NONE and position-coded data; block sizes 1024..65536, jobs 1..64, size hint absent/exact/smaller/larger/multi-block, headerless or not, checksum 0/32/64; one third with a sink fault plan (k-th sink Write fails, transient or permanent; wrapped closer fails); distinct_nontrivial = distinct scenarios in which at least one byte was accepted",
+		Rule:     "random call programs (Write incl. 0-length, Close repeated, GetWritten, calls after Close) on the real Writer with NONE/NONE and position-coded data; block sizes 1024..65536, jobs 1..64, size hint absent/exact/smaller/larger/multi-block, headerless or not, checksum 0/32/64; one third with a sink fault plan (k-th sink Write fails, transient or permanent; wrapped closer fails); family endflush: input lengths probed so that the 8-bit end marker written by Close is what fills the 256 KiB bitstream buffer, with the fault on exactly that sink Write (or the final flush after it); distinct_nontrivial = distinct scenarios in which at least one byte was accepted",
 		Gen:      swGen,
 		Exec:     swExec,
 	})
